@@ -53,3 +53,31 @@ func (p *pkg) firstIfLenLess(fn string) string {
 	}
 	return res
 }
+
+// fieldInit: the constant value given to field `field` in the first composite literal returned by function fn.
+func (p *pkg) fieldInit(fn, field string) string {
+	fd := p.findFunc(fn)
+	if fd == nil {
+		fail("function %s.%s not found", p.name, fn)
+		return "?"
+	}
+	res := "?"
+	ast.Inspect(fd.Body, func(n ast.Node) bool {
+		kv, ok := n.(*ast.KeyValueExpr)
+		if !ok || res != "?" {
+			return true
+		}
+		if id, ok := kv.Key.(*ast.Ident); ok && id.Name == field {
+			if v, err := p.eval(kv.Value, 0); err == nil {
+				res = v.ExactString()
+			} else {
+				res = "?" + exprString(kv.Value)
+			}
+		}
+		return true
+	})
+	if res == "?" {
+		fail("%s.%s: field %s not initialised by a constant", p.name, fn, field)
+	}
+	return res
+}
